@@ -18,7 +18,10 @@ import (
 	coinswaptypes "mods.irisnet.org/modules/coinswap/types"
 	farmtypes "mods.irisnet.org/modules/farm/types"
 	htlctypes "mods.irisnet.org/modules/htlc/types"
+	mttypes "mods.irisnet.org/modules/mt/types"
+	nfttypes "mods.irisnet.org/modules/nft/types"
 	oracletypes "mods.irisnet.org/modules/oracle/types"
+	randomtypes "mods.irisnet.org/modules/random/types"
 	recordtypes "mods.irisnet.org/modules/record/types"
 	servicetypes "mods.irisnet.org/modules/service/types"
 	tokentypes "mods.irisnet.org/modules/token/types"
@@ -171,13 +174,7 @@ var scenarios = []scenario{
 				if len(txs) > 0 {
 					price--
 				}
-				r := blk(c, txs...)
-				if os.Getenv("GENESIS_DEBUG") != "" {
-					fmt.Println("oracle scenario: height", r.Height, "responses", len(txs), "values", len(c.K.Oracle.GetFeedValues(c.Ctx(), "feed1")))
-					for _, t := range r.Txs {
-						fmt.Println("   ", t.OK, t.Log)
-					}
-				}
+				blk(c, txs...)
 			}
 			vals := c.K.Oracle.GetFeedValues(c.Ctx(), "feed1")
 			if len(vals) < 3 {
@@ -230,6 +227,54 @@ var scenarios = []scenario{
 				RewardPerBlock: coins("2rw1"), TotalReward: coins("8rw1"), Editable: true, Creator: addr(c, "a")}))
 			blk(c, tx("a", &farmtypes.MsgStake{PoolId: "farm-1", Amount: sdk.NewInt64Coin("lpt-1", 1000), Sender: addr(c, "a")}))
 			for i := 0; i < 6; i++ {
+				blk(c)
+			}
+		},
+	},
+	{
+		// control: NFT classes / tokens / owners and MT classes / balances
+		name:     "nft_mt",
+		accounts: map[string]string{"a": rich, "b": rich},
+		run: func(c *chain.Chain) {
+			blk(c, tx("a", &nfttypes.MsgIssueDenom{Id: "class1", Name: "Class One", Schema: "{}", Sender: addr(c, "a"), Symbol: "cls",
+				Description: "d", Uri: "u", UriHash: "h", Data: `{"k":"v"}`}),
+				tx("b", &mttypes.MsgIssueDenom{Name: "mtc", Data: []byte("d"), Sender: addr(c, "b")}))
+			blk(c, tx("a", &nfttypes.MsgMintNFT{Id: "tok1", DenomId: "class1", Name: "n1", URI: "u1", Data: `{"k":1}`, Sender: addr(c, "a"), Recipient: addr(c, "a")}),
+				tx("a", &nfttypes.MsgMintNFT{Id: "tok2", DenomId: "class1", Name: "n2", URI: "u2", Data: `{"k":2}`, Sender: addr(c, "a"), Recipient: addr(c, "b")}))
+			did := c.K.MT.GetDenoms(c.Ctx())[0].Id
+			blk(c, tx("a", &nfttypes.MsgTransferNFT{Id: "tok1", DenomId: "class1", Name: "[do-not-modify]", URI: "[do-not-modify]",
+				Data: "[do-not-modify]", UriHash: "[do-not-modify]", Sender: addr(c, "a"), Recipient: addr(c, "b")}),
+				tx("b", &mttypes.MsgMintMT{DenomId: did, Amount: 10, Data: []byte("m1"), Sender: addr(c, "b"), Recipient: addr(c, "a")}),
+				tx("b", &mttypes.MsgMintMT{DenomId: did, Amount: 7, Data: []byte("m2"), Sender: addr(c, "b"), Recipient: addr(c, "b")}))
+			mts, err := c.K.MT.MTs(c.Ctx(), &mttypes.QueryMTsRequest{DenomId: did, Pagination: page()})
+			if err != nil || len(mts.Mts) != 2 {
+				panic(fmt.Sprint("nft_mt scenario: mts ", err))
+			}
+			var mine string
+			for _, m := range mts.Mts {
+				r, _ := c.K.MT.Balances(c.Ctx(), &mttypes.QueryBalancesRequest{Owner: addr(c, "a"), DenomId: did, Pagination: page()})
+				for _, bal := range r.Balance {
+					if bal.MtId == m.Id {
+						mine = m.Id
+					}
+				}
+			}
+			blk(c, tx("a", &mttypes.MsgTransferMT{Id: mine, DenomId: did, Amount: 3, Sender: addr(c, "a"), Recipient: addr(c, "b")}),
+				tx("a", &nfttypes.MsgMintNFT{Id: "tok3", DenomId: "class1", Name: "n3", URI: "u3", Data: `{"k":3}`, Sender: addr(c, "a"), Recipient: addr(c, "a")}))
+			blk(c, tx("b", &mttypes.MsgBurnMT{Id: mine, DenomId: did, Amount: 1, Sender: addr(c, "b")}))
+			blk(c)
+		},
+	},
+	{
+		// control: pending random requests at several heights (the zero-height
+		// export rebases the queue); generated random numbers are not exported
+		name:     "random_pending",
+		accounts: map[string]string{"a": rich, "b": rich},
+		run: func(c *chain.Chain) {
+			blk(c, tx("a", &randomtypes.MsgRequestRandom{BlockInterval: 3, Consumer: addr(c, "a")}),
+				tx("b", &randomtypes.MsgRequestRandom{BlockInterval: 6, Consumer: addr(c, "b")}))
+			blk(c, tx("a", &randomtypes.MsgRequestRandom{BlockInterval: 5, Consumer: addr(c, "a")}))
+			for i := 0; i < 4; i++ {
 				blk(c)
 			}
 		},
